@@ -11,6 +11,21 @@ NOTE = ("Trusted: Lean 4.33 kernel + axioms propext/Classical.choice/Quot.sound 
         "(real code vs compiled model on the same cases); CPython/stdlib semantics re-expressed in the model. ")
 
 CHECKS = {
+    "C06": dict(
+        text="Theorems C06_roundtrip_{line,char,symbol} (every byte string: a successful load writes back the same bytes, atoms non-empty, one flag per atom), C06_no_internal_error, C06_lines_flatten; JS-string/attribute splitters: see level_note. Tied to testcases.py by differential execution of load() vs the model on every concatenation of <= 3/4 entries of a 24-entry adversarial alphabet x splitters plus random strings; monitor (dump-and-compare, also through a re-used object) on all five splitters.",
+        note=NOTE + "JS-string and attribute splitters are covered by theorems only once their models exist (C16); until then their round trip rests on the monitor.",
+        technique="Lean 4 proof (generic load round-trip lemma over any splitter meeting SplitOK, instantiated per splitter) + exhaustive short-string correspondence",
+        ref="§4 C06"),
+    "C08": dict(
+        text="Theorem C08_load_spec: for every splitter and every file, load equals the loop-free marker rule (first line mentioning a word opens iff it mentions DDBEGIN, first later line mentioning DDEND closes, both-words rule, the two LithiumErrors decided before the splitter runs); C08_no_markers. Tied to testcases.py by differential execution on every arrangement of <= 3 lines x 7 line kinds x up to 8 terminators x 5 splitters; monitor restates the rule on str.splitlines and checks that Lithium.main tests/writes nothing on a marker error.",
+        note=NOTE + "'before anything is tested or written' is checked on the real Lithium.main only (monitor), not modelled.",
+        technique="Lean 4 proof (loop-to-takeWhile/dropWhile refinement) + exhaustive arrangement correspondence",
+        ref="§4 C08"),
+    "C15": dict(
+        text="Theorems C15_line_terminated / C15_line_lf_last / C15_line_crlf (all byte strings), C15_char, C15_symbol_boundaries (all disjoint delimiter sets, all byte strings: atoms = cutting at every position whose left neighbour is cut-after or right neighbour is cut-before), C15_default_sets_disjoint, C15_symbol_overlap_counterexample (recorded finding). Tied to the code by exhaustive short strings for line/char/symbol (default + 20 custom sets, programmatic and via a real command line).",
+        note=NOTE + "Overlapping delimiter sets are a known finding (full statement kept as C15_symbol_statement, refuted by C15_symbol_overlap_counterexample).",
+        technique="Lean 4 proof (scanner = reference cutter, induction over matches) + exhaustive short-string correspondence",
+        ref="§4 C15"),
     "C07": dict(
         text="Theorem C07_rmslice_spec (all WF testcases, all integer/None bounds with clamp a <= clamp b): rmslice removes exactly the reducible atoms of rank [a',b'), keeps everything else, length drops by b'-a'; C07_clamp, C07_len_counts. Tied to testcases.py by exhaustive differential execution of copy()+rmslice() vs the model over all layouts <= 7/8 and all index pairs around the range, plus an independent monitor as failing-input search.",
         note=NOTE + "The aliasing clause ('a copy is independent') rests on the monitor only.",
